@@ -109,8 +109,8 @@ impl Family for C16Family {
 
     fn total(&self, tier: Tier) -> u64 {
         match tier {
-            Tier::Quick => 300_000,
-            Tier::Thorough => 20_000_000,
+            Tier::Quick => 1_500_000,
+            Tier::Thorough => 100_000_000,
         }
     }
 
